@@ -193,3 +193,139 @@ Section Transport.
            cr_delivered := []; cr_end := e |}
     end.
 End Transport.
+
+(** ---------- Connection.Send under c.mu: several senders, one connection ----------
+
+    Connection.Send is called by any number of goroutines (Client requests,
+    the ping loop).  Its body is   c.mu.Lock(); econn.send(b); c.mu.Unlock()
+    where send = XORKeyStream with the running tx stream, then conn.Write.
+    Labelled transition system: sender i performs, per packet, the steps
+    Lock, Encrypt, Write, Unlock; a scheduler picks (sender, step) pairs, a
+    step that is not enabled (blocked on the mutex, wrong phase) does not happen.
+    [early_unlock = true] is the variant that releases the mutex after the
+    status check, before encrypting and writing. *)
+Section SenderLock.
+  Variable H : list N -> list N.
+  Variable cstate : Type.
+  Variable next : cstate -> N * cstate.
+
+  Definition msg := (list N * list N)%type.      (* nonce, payload *)
+
+  Inductive phase :=
+  | PLocked (m : msg)        (* holds c.mu, packet marshalled *)
+  | PUnlocked (m : msg)      (* early_unlock only: mutex released, nothing sent yet *)
+  | PEnc (c : list N)        (* bytes encrypted in place, not yet written *)
+  | PWrote.                  (* written, still holding c.mu *)
+
+  Inductive action := ALock | AEncrypt | AWrite | AUnlock.
+
+  Record csys := {
+    cs_queues : list (list msg);          (* packets each sender still has to send *)
+    cs_active : list (nat * phase);       (* senders inside Send *)
+    cs_owner : option nat;                (* holder of c.mu *)
+    cs_tx : cstate;                       (* econn.cipher *)
+    cs_wire : list N;                     (* bytes written to the socket *)
+    cs_log : list (nat * msg)             (* order in which the mutex was acquired *)
+  }.
+
+  Fixpoint alookup (i : nat) (a : list (nat * phase)) : option phase :=
+    match a with
+    | [] => None
+    | (j, p) :: t => if Nat.eqb i j then Some p else alookup i t
+    end.
+
+  Fixpoint aremove (i : nat) (a : list (nat * phase)) : list (nat * phase) :=
+    match a with
+    | [] => []
+    | (j, p) :: t => if Nat.eqb i j then t else (j, p) :: aremove i t
+    end.
+
+  Definition aset (i : nat) (p : phase) (a : list (nat * phase)) : list (nat * phase) :=
+    (i, p) :: aremove i a.
+
+  Fixpoint qpop (i : nat) (qs : list (list msg)) : option (msg * list (list msg)) :=
+    match qs, i with
+    | [], _ => None
+    | q :: t, O => match q with [] => None | m :: q' => Some (m, q' :: t) end
+    | q :: t, S k => match qpop k t with Some (m, t') => Some (m, q :: t') | None => None end
+    end.
+
+  Definition cstep (early_unlock : bool) (i : nat) (a : action) (st : csys) : option csys :=
+    match a with
+    | ALock =>
+        match cs_owner st, alookup i (cs_active st), qpop i (cs_queues st) with
+        | None, None, Some (m, qs) =>
+            Some {| cs_queues := qs; cs_active := aset i (PLocked m) (cs_active st);
+                    cs_owner := Some i; cs_tx := cs_tx st; cs_wire := cs_wire st;
+                    cs_log := cs_log st ++ [(i, m)] |}
+        | _, _, _ => None
+        end
+    | AEncrypt =>
+        let go m :=
+          let '(c, tx) := send_packet H cstate next (cs_tx st) (fst m) (snd m) in
+          Some {| cs_queues := cs_queues st; cs_active := aset i (PEnc c) (cs_active st);
+                  cs_owner := cs_owner st; cs_tx := tx; cs_wire := cs_wire st;
+                  cs_log := cs_log st |} in
+        match alookup i (cs_active st) with
+        | Some (PLocked m) => if early_unlock then None else go m
+        | Some (PUnlocked m) => if early_unlock then go m else None
+        | _ => None
+        end
+    | AWrite =>
+        match alookup i (cs_active st) with
+        | Some (PEnc c) =>
+            Some {| cs_queues := cs_queues st;
+                    cs_active := if early_unlock then aremove i (cs_active st)
+                                 else aset i PWrote (cs_active st);
+                    cs_owner := cs_owner st; cs_tx := cs_tx st; cs_wire := cs_wire st ++ c;
+                    cs_log := cs_log st |}
+        | _ => None
+        end
+    | AUnlock =>
+        match alookup i (cs_active st) with
+        | Some PWrote =>
+            if early_unlock then None else
+            Some {| cs_queues := cs_queues st; cs_active := aremove i (cs_active st);
+                    cs_owner := None; cs_tx := cs_tx st; cs_wire := cs_wire st;
+                    cs_log := cs_log st |}
+        | Some (PLocked m) =>
+            if early_unlock then
+            Some {| cs_queues := cs_queues st; cs_active := aset i (PUnlocked m) (cs_active st);
+                    cs_owner := None; cs_tx := cs_tx st; cs_wire := cs_wire st;
+                    cs_log := cs_log st |}
+            else None
+        | _ => None
+        end
+    end.
+
+  (* a schedule; steps that are not enabled are skipped; the executed
+     encrypt / write events are recorded (true = encrypt) with their sizes *)
+  Fixpoint crun (early_unlock : bool) (sched : list (nat * action)) (st : csys)
+      (ev : list (bool * N)) : csys * list (bool * N) :=
+    match sched with
+    | [] => (st, ev)
+    | (i, a) :: t =>
+        match cstep early_unlock i a st with
+        | Some st' =>
+            let ev' := match a with
+                       | AEncrypt => ev ++ [(true, match alookup i (cs_active st') with
+                                                   | Some (PEnc c) => len c | _ => 0 end)]
+                       | AWrite => ev ++ [(false, len (cs_wire st') - len (cs_wire st))]
+                       | _ => ev
+                       end in
+            crun early_unlock t st' ev'
+        | None => crun early_unlock t st ev
+        end
+    end.
+
+  Definition cinit (tx0 : cstate) (queues : list (list msg)) : csys :=
+    {| cs_queues := queues; cs_active := []; cs_owner := None; cs_tx := tx0;
+       cs_wire := []; cs_log := [] |}.
+End SenderLock.
+
+Arguments cs_queues {cstate} c.
+Arguments cs_active {cstate} c.
+Arguments cs_owner {cstate} c.
+Arguments cs_tx {cstate} c.
+Arguments cs_wire {cstate} c.
+Arguments cs_log {cstate} c.
